@@ -69,6 +69,26 @@ func (c c17Case) value() *big.Int {
 	case "encoding":
 		p := refPointLite(c.Seed)
 		return p
+	case "y_near_half": // an abscissa whose two ordinates lie next to p/2 (they share their upper limbs)
+		for k := int64(c.E % 1000); k < int64(c.E%1000)+4000; k++ {
+			y := new(big.Int).Add(halfPc17, big.NewInt(1+k)) // (p-1)/2 + 1 + k
+			if c.Seed%2 == 1 {
+				y.Add(y, new(big.Int).Lsh(big.NewInt(int64(1+c.Seed%1000)), uint(64*(1+c.Seed/2%2))))
+			}
+			y2 := new(big.Int).Mul(y, y)
+			num := new(big.Int).Sub(big.NewInt(1), y2)
+			den := new(big.Int).Sub(ref.CurveA, new(big.Int).Mul(ref.CurveD, y2))
+			den.Mod(den, ref.P)
+			if den.Sign() == 0 {
+				continue
+			}
+			x2 := num.Mul(num, new(big.Int).ModInverse(den, ref.P))
+			x2.Mod(x2, ref.P)
+			if x := new(big.Int).ModSqrt(x2, ref.P); x != nil {
+				return x
+			}
+		}
+		return big.NewInt(0)
 	}
 	v := hx.Expand(c.Seed, "c17v", 0)
 	return v.Mod(v, ref.P)
@@ -155,7 +175,11 @@ var c17Consts = []string{"0", "1", "2", "3", "4", "5"}
 
 func genC17(t *rapid.T) c17Case {
 	c := c17Case{Mode: rapid.SampledFrom([]string{"sqrt", "sqrt", "point"}).Draw(t, "mode"), Seed: rapid.Uint64().Draw(t, "seed"), Big: rapid.Bool().Draw(t, "largest")}
-	c.Kind = rapid.SampledFrom([]string{"dyadic", "dyadic", "dyadic", "const", "uniform", "square", "nonsquare", "rootofunity", "encoding"}).Draw(t, "kind")
+	c.Kind = rapid.SampledFrom([]string{"dyadic", "dyadic", "dyadic", "const", "uniform", "square", "nonsquare", "rootofunity", "encoding", "y_near_half"}).Draw(t, "kind")
+	if c.Kind == "y_near_half" {
+		c.Mode = "point"
+		c.E = uint32(rapid.IntRange(0, 1<<20).Draw(t, "k"))
+	}
 	switch c.Kind {
 	case "dyadic":
 		var e uint32
@@ -222,6 +246,11 @@ func TestC17(t *testing.T) {
 					complete = false
 				}
 			}
+		}
+	}
+	for k := 0; k < 12; k++ { // abscissas whose ordinates are the nearest ones to p/2
+		for _, lg := range []bool{true, false} {
+			c17Part.EvalCase(s, c17Case{Mode: "point", Kind: "y_near_half", E: uint32(97*k + 7*hx.Shard()), Seed: uint64(k % 3), Big: lg})
 		}
 	}
 	for k := 0; k <= 32; k++ {
